@@ -8,6 +8,7 @@ package main
 // token type stored, the text bounds of its value and the final position.
 
 import (
+	"os"
 	"fmt"
 	"go/constant"
 	"go/token"
@@ -28,6 +29,112 @@ type lexDom struct {
 	base     avSym
 	expr     avSym
 	why      string
+	// the lexer's fields: where the position and the text live, and what the constructor leaves in the others
+	guarded           map[*ssa.BinOp]bool
+	ncells            avSym // the number of cells of the whole text: comparisons of a position with len(text) are comparisons with it
+	posPath, exprPath string
+	stateInit         map[string]AV
+}
+
+type lexField struct {
+	path string
+	t    types.Type
+}
+
+// structFields lists the leaf fields of a struct type, descending into nested struct values.
+func structFields(t types.Type, prefix string, out *[]lexField, depth int) {
+	st, ok := t.Underlying().(*types.Struct)
+	if !ok || depth > 4 {
+		return
+	}
+	for i := 0; i < st.NumFields(); i++ {
+		f := st.Field(i)
+		if _, nested := f.Type().Underlying().(*types.Struct); nested {
+			structFields(f.Type(), prefix+"."+f.Name(), out, depth+1)
+			continue
+		}
+		*out = append(*out, lexField{prefix + "." + f.Name(), f.Type()})
+	}
+}
+
+// layout finds the position field (the first field of the unnamed type int), the text field (the first string field)
+// and the values the constructor leaves in every other field (state the lexer starts from).
+func (d *lexDom) layout(e *Engine) {
+	var fs []lexField
+	structFields(d.lexerT, "", &fs, 0)
+	d.stateInit = map[string]AV{}
+	for _, f := range fs {
+		b, isBasic := f.t.(*types.Basic) // unnamed basic types only
+		switch {
+		case isBasic && b.Kind() == types.Int && d.posPath == "":
+			d.posPath = f.path
+		case isBasic && b.Kind() == types.String && d.exprPath == "":
+			d.exprPath = f.path
+		}
+	}
+	// the constructor: a function of the package from a string to the lexer (or a pointer to it)
+	var ctor *ssa.Function
+	pkg := d.p.SSA.Package(d.p.Lexer.Types)
+	for _, m := range pkg.Members {
+		fn, ok := m.(*ssa.Function)
+		if !ok || len(fn.Blocks) == 0 || fn.Signature.Recv() != nil || fn.Signature.Params().Len() != 1 || fn.Signature.Results().Len() != 1 {
+			continue
+		}
+		if pb, ok := fn.Signature.Params().At(0).Type().Underlying().(*types.Basic); !ok || pb.Kind() != types.String {
+			continue
+		}
+		rt := fn.Signature.Results().At(0).Type()
+		if pt, ok := rt.(*types.Pointer); ok {
+			rt = pt.Elem()
+		}
+		if types.Identical(rt, d.lexerT) && (ctor == nil || fn.Name() < ctor.Name()) {
+			ctor = fn
+		}
+	}
+	var built AV
+	var bst *State
+	if ctor != nil {
+		e2 := newEngine(d.p, plainDom{})
+		e2.MaxVisits = 2
+		outs := e2.Run(ctor, []AV{avSym{id: e2.fresh(), tag: "expr"}}, e2.WithInit(pkg, newState()))
+		if e2.Aborted == "" && len(outs) == 1 && !outs[0].Panic && !outs[0].Cut && len(outs[0].Res) == 1 {
+			built, bst = outs[0].Res[0], outs[0].St
+		}
+	}
+	for _, f := range fs {
+		if f.path == d.posPath || f.path == d.exprPath {
+			continue
+		}
+		if b, isBasic := f.t.(*types.Basic); isBasic && (b.Kind() == types.Int || b.Kind() == types.String) {
+			continue // further offsets into the text / further texts: symbolic as before
+		}
+		var v AV
+		switch x := built.(type) {
+		case avStruct:
+			v = fieldAt(x, f.path)
+		case avPtr:
+			v, _ = bst.load(avPtr{x.o, x.path + f.path})
+		}
+		if v == nil {
+			v = zeroAV(f.t)
+		}
+		switch v.(type) {
+		case avConst, avNil:
+			d.stateInit[f.path] = v
+		}
+	}
+}
+
+func fieldAt(s avStruct, path string) AV {
+	var cur AV = s
+	for _, name := range strings.Split(strings.TrimPrefix(path, "."), ".") {
+		st, ok := cur.(avStruct)
+		if !ok {
+			return nil
+		}
+		cur = st.f[name]
+	}
+	return cur
 }
 
 func newLexDom(p *Program) *lexDom {
@@ -77,6 +184,12 @@ func (d *lexDom) start() (*Engine, *State) {
 	d.expr = avSym{id: e.fresh(), tag: "expr"}
 	st = e.WithInit(d.p.SSA.Package(d.p.Lexer.Types), st)
 	st.store(avPtr{d.lobj, "#n"}, avConst{constant.MakeInt64(0)})
+	d.ncells = avSym{id: e.fresh(), tag: "ncells"}
+	st.assumeInt(d.ncells.id, token.GEQ, 0)
+	d.layout(e)
+	for path, v := range d.stateInit {
+		st.store(avPtr{d.lobj, path}, v)
+	}
 	return e, st
 }
 
@@ -156,6 +269,127 @@ func (d *lexDom) rune(st *State, k int) (r, sz avSym) {
 	return
 }
 
+// Cells of the text come in kinds: "dec" was produced by the rune decoder (a well-formed character of its width), "ix"
+// by reading a byte (the first byte of a character, the character itself when it is ASCII), "raw" is a single byte
+// (a byte that a byte-wise scanner stepped over, or that a search of package strings skipped): a raw byte outside ASCII
+// may be part of an ill-formed sequence until utf8.ValidString has been asked about the text it stands in.
+func (d *lexDom) kind(st *State, k int) string {
+	v, _ := st.load(avPtr{d.lobj, fmt.Sprintf("#kind[%d]", k)})
+	if c, ok := v.(avConst); ok && c.v.Kind() == constant.String {
+		return constant.StringVal(c.v)
+	}
+	return "dec"
+}
+
+func (d *lexDom) setKind(st *State, k int, kind string) {
+	st.store(avPtr{d.lobj, fmt.Sprintf("#kind[%d]", k)}, avConst{constant.MakeString(kind)})
+}
+
+// wellFormed: cell k is known to be (part of) well-formed text on this path.
+func (d *lexDom) wellFormed(st *State, k int) bool {
+	if d.kind(st, k) == "dec" || d.isASCII(st, k) {
+		return true
+	}
+	v, _ := st.load(avPtr{d.lobj, fmt.Sprintf("#valid[%d]", k)})
+	c, ok := v.(avConst)
+	return ok && c.v.Kind() == constant.Bool && constant.BoolVal(c.v)
+}
+
+// newCell appends a cell of the given kind and returns its value and size symbols.
+func (d *lexDom) newCell(e *Engine, st *State, kind string) (r, sz avSym) {
+	n := d.nRunes(st)
+	if kind == "blind" {
+		// a byte the scanner stepped over without looking at it: whether the text reaches that far is not known
+		kind = "raw"
+		st.store(avPtr{d.lobj, fmt.Sprintf("#blind[%d]", n+1)}, avConst{constant.MakeBool(true)})
+	} else {
+		st.assumeInt(d.ncells.id, token.GEQ, int64(n+1))
+	}
+	r = avSym{id: e.fresh(), tag: fmt.Sprintf("c%d", n+1)}
+	sz = avSym{id: e.fresh(), tag: fmt.Sprintf("s%d", n+1)}
+	st.store(avPtr{d.lobj, "#n"}, avConst{constant.MakeInt64(int64(n + 1))})
+	st.store(avPtr{d.lobj, fmt.Sprintf("#r[%d]", n+1)}, r)
+	st.store(avPtr{d.lobj, fmt.Sprintf("#s[%d]", n+1)}, sz)
+	d.setKind(st, n+1, kind)
+	st.assumeInt(r.id, token.GEQ, 0)
+	if kind == "raw" {
+		st.assumeInt(sz.id, token.EQL, 1)
+		st.assumeInt(r.id, token.LEQ, 255)
+	} else {
+		st.assumeInt(sz.id, token.GEQ, 1)
+		st.assumeInt(sz.id, token.LEQ, 4)
+		st.assumeInt(r.id, token.LEQ, 0x10FFFF)
+	}
+	return
+}
+
+func (d *lexDom) isBlind(st *State, k int) bool {
+	v, _ := st.load(avPtr{d.lobj, fmt.Sprintf("#blind[%d]", k)})
+	c, ok := v.(avConst)
+	return ok && c.v.Kind() == constant.Bool && constant.BoolVal(c.v)
+}
+
+// seen: cell k has now been looked at (it exists).
+func (d *lexDom) seen(st *State, k int) {
+	if d.isBlind(st, k) {
+		st.store(avPtr{d.lobj, fmt.Sprintf("#blind[%d]", k)}, avConst{constant.MakeBool(false)})
+	}
+	st.assumeInt(d.ncells.id, token.GEQ, int64(k))
+}
+
+// decodedAgain: the rune decoder succeeded on a cell that exists already: a cell only read as a byte so far is a
+// well-formed character from now on.
+func (d *lexDom) decodedAgain(st *State, k int) (r, sz avSym) {
+	d.seen(st, k)
+	if d.kind(st, k) == "ix" {
+		d.setKind(st, k, "dec")
+	}
+	return d.rune(st, k)
+}
+
+// indexRelax is index for a scanner that may work byte by byte: a constant step over a cell that was only ever read as
+// a byte turns that cell into a single raw byte (the scanner looks at the text byte-wise there), and the position is
+// resolved again.
+func (d *lexDom) indexRelax(st *State, pos AV) (int, string) {
+	if pos != nil && avKey(pos) == avKey(lenSym(d.expr)) {
+		if k, ok := st.KnownInt(d.ncells); ok {
+			return int(k), ""
+		}
+		return -1, "the end of the text, which the path has not located"
+	}
+	idx, why := d.index(st, pos)
+	if why == "" || !strings.Contains(why, "advances by a constant") {
+		return idx, why
+	}
+	changed := false
+	// a constant step past the last cell looked at: bytes the scanner steps over without reading them
+	if lf := linear(st, pos); lf.ok && d.e != nil {
+		probe := st.clone()
+		for extra := 1; extra <= 2; extra++ {
+			d.newCell(d.e, probe, "blind")
+			if k, w := d.index(probe, pos); w == "" {
+				for j := 0; j < extra; j++ {
+					d.newCell(d.e, st, "blind")
+				}
+				return k, ""
+			}
+		}
+	}
+	for i := 1; i <= d.nRunes(st); i++ {
+		if d.kind(st, i) == "ix" && !d.isASCII(st, i) {
+			r, sz := d.rune(st, i)
+			if st.assumeInt(sz.id, token.EQL, 1) && st.assumeInt(r.id, token.LEQ, 255) {
+				d.setKind(st, i, "raw")
+				changed = true
+			}
+		}
+	}
+	if !changed {
+		return idx, why
+	}
+	return d.index(st, pos)
+}
+
 func (d *lexDom) isASCII(st *State, k int) bool {
 	r, _ := d.rune(st, k)
 	lo, hi, _ := st.intRange(r)
@@ -193,7 +427,7 @@ func (d *lexDom) index(st *State, pos AV) (int, string) {
 		switch {
 		case used[i]:
 			idx = i
-		case cnt > 0 && d.isASCII(st, i):
+		case cnt > 0 && (d.isASCII(st, i) || d.kind(st, i) == "raw"):
 			cnt--
 			idx = i
 		default:
@@ -219,8 +453,118 @@ func (d *lexDom) Call(e *Engine, st *State, site ssa.CallInstruction, callee *ss
 	if callee == nil {
 		return nil, false
 	}
+	// the library decoder applied to the rest of the text at a position: the same rune model, with the decoder's own way
+	// of reporting the end of the text (width 0) and an ill-formed sequence (U+FFFD with width 1); a well-formed U+FFFD
+	// has width 3
+	if callee != d.decodeFn && callee.String() == "unicode/utf8.DecodeRuneInString" && len(args) == 1 {
+		if debugLex {
+			fmt.Fprintf(os.Stderr, "DecodeRuneInString arg=%s\n", avKey(args[0]))
+		}
+		if sy, ok := args[0].(avSym); ok && sy.tag == "slice" {
+			if t, ok := sy.payload.(avTuple); ok && len(t) == 3 && avKey(t[0]) == avKey(d.expr) && (t[2] == nil || avKey(t[2]) == avKey(lenSym(d.expr))) && t[1] != nil {
+				idx, why := d.indexRelax(st, t[1])
+				if why != "" {
+					st.event(Event{Kind: "misstep", Pos: site.Pos(), Note: why})
+					idx = d.nRunes(st)
+				}
+				n := d.nRunes(st)
+				if idx > n {
+					st.event(Event{Kind: "misstep", Pos: site.Pos(), Note: "decodes past a rune that was never decoded"})
+					idx = n
+				}
+				runeErr := avConst{constant.MakeInt64(0xFFFD)}
+				var outs []CallOut
+				if idx == n || d.isBlind(st, idx+1) {
+					// nothing is known about this position yet: it can be the end of the text or an ill-formed sequence
+					end := st.clone()
+					if end.assumeInt(d.ncells.id, token.LEQ, int64(idx)) {
+						end.event(Event{Kind: "decode-err", Pos: site.Pos(), Note: fmt.Sprint(idx + 1)})
+						outs = append(outs, CallOut{St: end, Res: []AV{runeErr, avConst{constant.MakeInt64(0)}}})
+					}
+					bad := st.clone()
+					if bad.assumeInt(d.ncells.id, token.GEQ, int64(idx+1)) {
+						bad.event(Event{Kind: "decode-err", Pos: site.Pos(), Note: fmt.Sprint(idx + 1)})
+						outs = append(outs, CallOut{St: bad, Res: []AV{runeErr, avConst{constant.MakeInt64(1)}}})
+					}
+				}
+				var r, sz avSym
+				if idx < n {
+					r, sz = d.decodedAgain(st, idx+1)
+				} else {
+					r, sz = d.newCell(e, st, "dec")
+				}
+				st.event(Event{Kind: "decode", Pos: site.Pos(), Note: fmt.Sprint(idx + 1)})
+				outs = append([]CallOut{{St: st, Res: []AV{r, sz}}}, outs...)
+				return outs, true
+			}
+		}
+	}
+	switch callee.String() {
+	case "strings.IndexByte", "strings.IndexRune", "strings.IndexAny":
+		if len(args) == 2 {
+			if lo, hi, ok := d.window(st, args[0]); ok && hi == -1 {
+				var targets []int64
+				okT := true
+				switch c := args[1].(type) {
+				case avConst:
+					switch c.v.Kind() {
+					case constant.Int:
+						v, _ := constant.Int64Val(c.v)
+						targets = []int64{v}
+					case constant.String:
+						for _, ch := range constant.StringVal(c.v) {
+							targets = append(targets, int64(ch))
+						}
+					default:
+						okT = false
+					}
+				default:
+					if k, known := st.KnownInt(args[1]); known {
+						targets = []int64{k}
+					} else {
+						okT = false
+					}
+				}
+				for _, t := range targets {
+					if t >= 0x80 {
+						okT = false
+					}
+				}
+				if okT && len(targets) > 0 && len(targets) <= 3 {
+					return d.search(e, st, lo, targets, site.Pos()), true
+				}
+			}
+		}
+	case "unicode/utf8.ValidString":
+		if len(args) == 1 {
+			if lo, hi, ok := d.window(st, args[0]); ok && (hi >= lo || hi == -1) {
+				if hi == -1 {
+					// to the end of the text: what the path has looked at (anything further is as unknown as before)
+					hi = d.nRunes(st)
+					if k, known := st.KnownInt(d.ncells); known && int(k) < hi {
+						hi = int(k)
+					}
+				}
+				all := true
+				for k := lo + 1; k <= hi; k++ {
+					if !d.wellFormed(st, k) {
+						all = false
+					}
+				}
+				if all {
+					return []CallOut{{St: st, Res: []AV{avConst{constant.MakeBool(true)}}}}, true
+				}
+				bad := st.clone()
+				bad.event(Event{Kind: "decode-err", Pos: site.Pos(), Note: "ill-formed UTF-8 found by utf8.ValidString"})
+				for k := lo + 1; k <= hi; k++ {
+					st.store(avPtr{d.lobj, fmt.Sprintf("#valid[%d]", k)}, avConst{constant.MakeBool(true)})
+				}
+				return []CallOut{{St: st, Res: []AV{avConst{constant.MakeBool(true)}}}, {St: bad, Res: []AV{avConst{constant.MakeBool(false)}}}}, true
+			}
+		}
+	}
 	if callee == d.decodeFn {
-		idx, why := d.index(st, args[1])
+		idx, why := d.indexRelax(st, args[1])
 		if why != "" {
 			st.event(Event{Kind: "misstep", Pos: site.Pos(), Note: why})
 			idx = d.nRunes(st)
@@ -235,22 +579,160 @@ func (d *lexDom) Call(e *Engine, st *State, site ssa.CallInstruction, callee *ss
 		errv := avSym{id: e.fresh(), tag: "decode-err", nonNil: true}
 		var r, sz avSym
 		if idx < n {
-			r, sz = d.rune(st, idx+1) // decoded before on this path: same rune
+			r, sz = d.decodedAgain(st, idx+1) // looked at before on this path: the same character
 		} else {
-			r = avSym{id: e.fresh(), tag: fmt.Sprintf("c%d", n+1)}
-			sz = avSym{id: e.fresh(), tag: fmt.Sprintf("s%d", n+1)}
-			st.store(avPtr{d.lobj, "#n"}, avConst{constant.MakeInt64(int64(n + 1))})
-			st.store(avPtr{d.lobj, fmt.Sprintf("#r[%d]", n+1)}, r)
-			st.store(avPtr{d.lobj, fmt.Sprintf("#s[%d]", n+1)}, sz)
-			st.assumeInt(sz.id, token.GEQ, 1)
-			st.assumeInt(sz.id, token.LEQ, 4)
-			st.assumeInt(r.id, token.GEQ, 0)
-			st.assumeInt(r.id, token.LEQ, 0x10FFFF)
+			r, sz = d.newCell(e, st, "dec")
 		}
 		st.event(Event{Kind: "decode", Pos: site.Pos(), Note: fmt.Sprint(idx + 1)})
 		return []CallOut{{St: st, Res: []AV{r, sz, avNil{}}}, {St: bad, Res: []AV{avConst{constant.MakeInt64(0)}, avConst{constant.MakeInt64(0)}, errv}}}, true
 	}
 	return nil, false
+}
+
+// Cmp relates a decoded rune and its width where the decoder's error value is concerned: a well-formed U+FFFD is three
+// bytes long, so on a path where the decoder succeeded `r == utf8.RuneError && sz == 1` is false.
+func (d *lexDom) Cmp(e *Engine, st *State, op token.Token, x, y AV) (AV, bool) {
+	// a position against the length of the text: the number of cells before the position against the number of cells of
+	// the text (every cell is at least one byte long)
+	lk := avKey(lenSym(d.expr))
+	if x != nil && y != nil {
+		switch {
+		case avKey(y) == lk && avKey(x) != lk:
+			if k, why := d.indexRelax(st, x); why == "" {
+				return e.binop(st, op, avConst{constant.MakeInt64(int64(k))}, d.ncells), true
+			}
+		case avKey(x) == lk && avKey(y) != lk:
+			if k, why := d.indexRelax(st, y); why == "" {
+				return e.binop(st, op, d.ncells, avConst{constant.MakeInt64(int64(k))}), true
+			}
+		}
+	}
+	// a position (an offset into the text) is never negative: comparisons with a negative constant are decided
+	for _, pr := range [][2]AV{{x, y}, {y, x}} {
+		c, isC := pr[1].(avConst)
+		if !isC || c.v.Kind() != constant.Int || constant.Sign(c.v) >= 0 {
+			continue
+		}
+		if lf := linear(st, pr[0]); !lf.ok || lf.syms[avKey(d.base)] != 1 {
+			continue
+		}
+		if _, why := d.index(st, pr[0]); why != "" {
+			continue
+		}
+		o := op
+		if pr[0] != x {
+			o = flipOp(op)
+		}
+		// position o negative-constant
+		switch o {
+		case token.EQL, token.LSS, token.LEQ:
+			return avConst{constant.MakeBool(false)}, true
+		case token.NEQ, token.GTR, token.GEQ:
+			return avConst{constant.MakeBool(true)}, true
+		}
+	}
+	if op != token.EQL && op != token.NEQ {
+		return nil, false
+	}
+	sy, ok := x.(avSym)
+	c, okc := y.(avConst)
+	if !ok || !okc {
+		sy, ok = y.(avSym)
+		c, okc = x.(avConst)
+	}
+	if !ok || !okc || c.v.Kind() != constant.Int || len(sy.tag) < 2 {
+		return nil, false
+	}
+	cv, exact := constant.Int64Val(c.v)
+	if !exact {
+		return nil, false
+	}
+	var k int
+	if _, err := fmt.Sscanf(sy.tag[1:], "%d", &k); err != nil || k < 1 || k > d.nRunes(st) {
+		return nil, false
+	}
+	r, sz := d.rune(st, k)
+	switch {
+	case sy.tag[0] == 'c' && avKey(sy) == avKey(r) && cv == 0xFFFD:
+		// the rune against U+FFFD: impossible when its width is known not to be 3; otherwise an opaque predicate of the
+		// rune, so that the test leaves no trace in the character class of the rune (U+FFFD is an ordinary character)
+		if lo, hi, ok := st.intRange(sz); ok && (hi < 3 || lo > 3) {
+			return avConst{constant.MakeBool(op == token.NEQ)}, true
+		}
+		// `r == utf8.RuneError && <a size test that fails for 3>`: on a path where the decoder succeeded the conjunction
+		// is false whatever the rune is; answering so here leaves no trace in the rune's character class
+		if bo, ok := e.Cur.(*ssa.BinOp); ok && op == token.EQL && d.fffdGuarded()[bo] {
+			if _, pinned := st.KnownInt(r); !pinned {
+				return avConst{constant.MakeBool(false)}, true
+			}
+		}
+	case sy.tag[0] == 's' && avKey(sy) == avKey(sz) && cv != 3:
+		// the width against something other than 3: impossible when the rune is known to be U+FFFD
+		if rv, known := st.KnownInt(r); known && rv == 0xFFFD {
+			return avConst{constant.MakeBool(op == token.NEQ)}, true
+		}
+	}
+	return nil, false
+}
+
+// fffdGuarded: the comparisons `x == 0xFFFD` of the lexer package whose true edge leads straight to a test of an integer
+// against a small constant that fails for 3 (the width of a well-formed U+FFFD).
+func (d *lexDom) fffdGuarded() map[*ssa.BinOp]bool {
+	if d.guarded != nil {
+		return d.guarded
+	}
+	d.guarded = map[*ssa.BinOp]bool{}
+	for _, fn := range d.p.ReachFuncs(d.p.Lexer) {
+		for _, b := range fn.Blocks {
+			if len(b.Instrs) == 0 {
+				continue
+			}
+			iff, ok := b.Instrs[len(b.Instrs)-1].(*ssa.If)
+			if !ok {
+				continue
+			}
+			bo, ok := iff.Cond.(*ssa.BinOp)
+			if !ok || bo.Op != token.EQL || bo.Block() != b {
+				continue
+			}
+			isFFFD := func(v ssa.Value) bool {
+				c, ok := v.(*ssa.Const)
+				return ok && c.Value != nil && c.Value.Kind() == constant.Int && c.Int64() == 0xFFFD
+			}
+			if !isFFFD(bo.X) && !isFFFD(bo.Y) {
+				continue
+			}
+			nb := b.Succs[0]
+			if len(nb.Instrs) == 0 || len(nb.Preds) != 1 {
+				continue
+			}
+			iff2, ok := nb.Instrs[len(nb.Instrs)-1].(*ssa.If)
+			if !ok {
+				continue
+			}
+			szt, ok := iff2.Cond.(*ssa.BinOp)
+			if !ok || szt.Block() != nb || !isIntType(szt.X.Type()) {
+				continue
+			}
+			// the value of the test for width 3
+			var l, rr constant.Value
+			three := constant.MakeInt64(3)
+			if c, ok := szt.Y.(*ssa.Const); ok && c.Value != nil {
+				l, rr = three, c.Value
+			} else if c, ok := szt.X.(*ssa.Const); ok && c.Value != nil {
+				l, rr = c.Value, three
+			} else {
+				continue
+			}
+			switch szt.Op {
+			case token.EQL, token.NEQ, token.LSS, token.LEQ, token.GTR, token.GEQ:
+				if !constant.Compare(l, szt.Op, rr) {
+					d.guarded[bo] = true
+				}
+			}
+		}
+	}
+	return d.guarded
 }
 
 // Index models byte access expr[pos]: the byte at the start of rune k+1. For the ASCII tests a byte-level scanner makes,
@@ -260,13 +742,21 @@ func (d *lexDom) Index(e *Engine, st *State, x, idx AV, site *ssa.Index) (AV, bo
 	if avKey(x) != avKey(d.expr) {
 		return nil, false
 	}
-	k, why := d.index(st, idx)
+	k, why := d.indexRelax(st, idx)
 	if why != "" {
 		st.event(Event{Kind: "misstep", Pos: site.Pos(), Note: why})
 		return avSym{id: e.fresh(), tag: "byte"}, true
 	}
 	n := d.nRunes(st)
+	// reading a byte at or past the end of the text panics: the path must know that the text goes on
+	if lo, _, ok := st.intRange(d.ncells); !ok || lo < int64(k+1) {
+		probe := st.clone()
+		if probe.assumeInt(d.ncells.id, token.LEQ, int64(k)) {
+			st.event(Event{Kind: "misstep", Pos: site.Pos(), Note: "reads a byte at a position that the path does not know to lie inside the text"})
+		}
+	}
 	if k < n {
+		d.seen(st, k+1)
 		r, _ := d.rune(st, k+1)
 		return r, true
 	}
@@ -274,16 +764,108 @@ func (d *lexDom) Index(e *Engine, st *State, x, idx AV, site *ssa.Index) (AV, bo
 		st.event(Event{Kind: "misstep", Pos: site.Pos(), Note: "reads a byte past a rune that was never examined"})
 		return avSym{id: e.fresh(), tag: "byte"}, true
 	}
-	r := avSym{id: e.fresh(), tag: fmt.Sprintf("c%d", n+1)}
-	sz := avSym{id: e.fresh(), tag: fmt.Sprintf("s%d", n+1)}
-	st.store(avPtr{d.lobj, "#n"}, avConst{constant.MakeInt64(int64(n + 1))})
-	st.store(avPtr{d.lobj, fmt.Sprintf("#r[%d]", n+1)}, r)
-	st.store(avPtr{d.lobj, fmt.Sprintf("#s[%d]", n+1)}, sz)
-	st.assumeInt(sz.id, token.GEQ, 1)
-	st.assumeInt(sz.id, token.LEQ, 4)
-	st.assumeInt(r.id, token.GEQ, 0)
-	st.assumeInt(r.id, token.LEQ, 0x10FFFF)
+	r, _ := d.newCell(e, st, "ix")
 	return r, true
+}
+
+// window resolves a piece expr[lo:hi] of the text to cell indices (cells lo+1..hi); hi is -1 for "to the end".
+func (d *lexDom) window(st *State, v AV) (lo, hi int, ok bool) {
+	sy, isSym := v.(avSym)
+	if !isSym || sy.tag != "slice" {
+		return
+	}
+	t, isT := sy.payload.(avTuple)
+	if !isT || len(t) != 3 || avKey(t[0]) != avKey(d.expr) {
+		return
+	}
+	lo = 0
+	if t[1] != nil {
+		k, why := d.indexRelax(st, t[1])
+		if why != "" {
+			return
+		}
+		lo = k
+	}
+	hi = -1
+	if t[2] != nil && avKey(t[2]) != avKey(lenSym(d.expr)) {
+		k, why := d.indexRelax(st, t[2])
+		if why != "" {
+			return
+		}
+		hi = k
+	}
+	return lo, hi, true
+}
+
+// search models strings.IndexByte / IndexAny / IndexRune on the rest of the text from a position: the text skipped is
+// zero, one or two raw bytes none of which is searched for (longer stretches are beyond the bound, like a loop that is
+// cut), followed by one of the bytes searched for, or by the end of the text (not found). The result is the number of
+// bytes skipped, or -1.
+func (d *lexDom) search(e *Engine, st *State, lo int, targets []int64, pos token.Pos) []CallOut {
+	var outs []CallOut
+	n := d.nRunes(st)
+	// cells that exist already from lo on are walked first
+	var walk func(st *State, k int, skipped int, fresh int)
+	walk = func(st *State, k int, skipped int, fresh int) {
+		if k < d.nRunes(st) && !d.isBlind(st, k+1) {
+			r, sz := d.rune(st, k+1)
+			// this cell is one of the targets?
+			for _, t := range targets {
+				s1 := st.clone()
+				if s1.assumeInt(r.id, token.EQL, t) && s1.assumeInt(sz.id, token.EQL, 1) {
+					outs = append(outs, CallOut{St: s1, Res: []AV{d.offset(s1, lo, k)}})
+				}
+			}
+			s2 := st
+			okAll := true
+			for _, t := range targets {
+				if !s2.assumeInt(r.id, token.NEQ, t) {
+					okAll = false
+				}
+			}
+			if okAll {
+				walk(s2, k+1, skipped+1, fresh)
+			}
+			return
+		}
+		// at the frontier: found here, the end of the text, or one more raw byte
+		for _, t := range targets {
+			s1 := st.clone()
+			r, _ := d.newCell(e, s1, "raw")
+			s1.assumeInt(r.id, token.EQL, t)
+			outs = append(outs, CallOut{St: s1, Res: []AV{d.offset(s1, lo, k)}})
+		}
+		end := st.clone()
+		if end.assumeInt(d.ncells.id, token.LEQ, int64(k)) {
+			end.event(Event{Kind: "decode-err", Pos: pos, Note: "end of the text reached by a search"})
+			outs = append(outs, CallOut{St: end, Res: []AV{avConst{constant.MakeInt64(-1)}}})
+		}
+		if fresh < 2 {
+			s3 := st.clone()
+			r, _ := d.newCell(e, s3, "raw")
+			for _, t := range targets {
+				s3.assumeInt(r.id, token.NEQ, t)
+			}
+			walk(s3, k+1, skipped+1, fresh+1)
+		}
+	}
+	_ = n
+	walk(st.clone(), lo, 0, 0)
+	return outs
+}
+
+// offset: the byte distance from cell index lo to cell index k as a sum of cell sizes.
+func (d *lexDom) offset(st *State, lo, k int) AV {
+	var out AV = avConst{constant.MakeInt64(0)}
+	for i := lo + 1; i <= k; i++ {
+		_, sz := d.rune(st, i)
+		if c, ok := st.KnownInt(sz); ok {
+			out = d.e.binop(st, token.ADD, out, avConst{constant.MakeInt64(c)})
+		} else {
+			out = avBin{token.ADD, out, sz}
+		}
+	}
+	return out
 }
 
 // ---------------------------------------------------------------- rendering
@@ -308,7 +890,32 @@ func runeClass(st *State, r avSym) string {
 	return fmt.Sprintf("[%q-%q]", rune(lo), rune(hi))
 }
 
-var debugLex = false
+// cellClass renders the character class of cell k; a raw byte that spans all byte values stands for any character.
+func (d *lexDom) cellClass(st *State, k int) string {
+	r, _ := d.rune(st, k)
+	if d.kind(st, k) != "raw" {
+		return runeClass(st, r)
+	}
+	if c, ok := st.KnownInt(r); ok {
+		return fmt.Sprintf("%q", rune(c))
+	}
+	lo, hi, _ := st.intRange(r)
+	if lo <= 0 && hi >= 255 {
+		ex := st.Excluded(r)
+		if len(ex) == 0 {
+			return "ANY"
+		}
+		var cs []string
+		for c := range ex {
+			cs = append(cs, fmt.Sprintf("%q", rune(c)))
+		}
+		sort.Strings(cs)
+		return "^" + strings.Join(cs, "")
+	}
+	return fmt.Sprintf("[%q-%q]", rune(lo), rune(hi))
+}
+
+var debugLex = os.Getenv("JMESCHECK_DEBUG_LEX") != ""
 
 type lexPath struct {
 	WS       int
@@ -350,10 +957,14 @@ func (d *lexDom) describe(o Outcome, startIdx int) lexPath {
 		}
 	}
 	// final position
-	posv, _ := st.load(avPtr{d.lobj, ".position"})
+	pp := d.posPath
+	if pp == "" {
+		pp = ".position"
+	}
+	posv, _ := st.load(avPtr{d.lobj, pp})
 	end := -1
 	if posv != nil {
-		if idx, why := d.index(st, posv); why == "" {
+		if idx, why := d.indexRelax(st, posv); why == "" {
 			end = idx
 		} else {
 			lp.Missteps = append(lp.Missteps, "final position: "+why)
@@ -374,8 +985,8 @@ func (d *lexDom) describe(o Outcome, startIdx int) lexPath {
 		if vv, ok := tf["Value"]; ok {
 			if sy, ok := vv.(avSym); ok && sy.tag == "slice" {
 				if t, ok := sy.payload.(avTuple); ok && len(t) == 3 {
-					lo, why1 := d.index(st, t[1])
-					hi, why2 := d.index(st, t[2])
+					lo, why1 := d.indexRelax(st, t[1])
+					hi, why2 := d.indexRelax(st, t[2])
 					switch {
 					case avKey(t[0]) != avKey(d.expr):
 						lp.Note = append(lp.Note, "value is not a slice of the expression")
@@ -412,8 +1023,10 @@ func (d *lexDom) describe(o Outcome, startIdx int) lexPath {
 		upto = n
 	}
 	for i := startIdx + 1; i <= upto; i++ {
-		r, _ := d.rune(st, i)
-		lp.Consumed = append(lp.Consumed, runeClass(st, r))
+		lp.Consumed = append(lp.Consumed, d.cellClass(st, i))
+		if lp.Err == "" && !d.wellFormed(st, i) {
+			lp.Note = append(lp.Note, fmt.Sprintf("byte %d of the token (%s) was only looked at as a byte and may be part of an ill-formed UTF-8 sequence; nothing on the path establishes that the token's text is well-formed", i-startIdx, d.cellClass(st, i)))
+		}
 	}
 	// keyword decisions on the text
 	for _, c := range st.Conds {
@@ -430,8 +1043,7 @@ func (d *lexDom) describe(o Outcome, startIdx int) lexPath {
 		// what was looked at beyond the consumed runes decides the error
 		var look []string
 		for i := upto + 1; i <= n; i++ {
-			r, _ := d.rune(st, i)
-			look = append(look, runeClass(st, r))
+			look = append(look, d.cellClass(st, i))
 		}
 		if len(look) > 0 {
 			s += " <" + strings.Join(look, " ") + ">"
@@ -446,6 +1058,15 @@ func (d *lexDom) describe(o Outcome, startIdx int) lexPath {
 	lp.Line = strings.TrimSpace(s)
 	if debugLex {
 		lp.Line += fmt.Sprintf(" [n=%d end=%d pos=%s]", n, end, avKey(posv))
+		var cs []string
+		for _, c := range st.Conds {
+			cs = append(cs, fmt.Sprintf("%s=%v", avKey(c.V), c.Truth))
+		}
+		lo, hi, _ := st.intRange(d.ncells)
+		lp.Line += fmt.Sprintf(" conds{%s} ncells[%d,%d]", strings.Join(cs, "; "), lo, hi)
+		for _, ev := range st.Trace {
+			lp.Line += " ev:" + ev.Kind
+		}
 	}
 	return lp
 }
